@@ -6,6 +6,9 @@
 // fopencookie with the same scripted chunking.
 #include <dirent.h>
 #include <errno.h>
+#include <stddef.h>
+#include <sys/un.h>
+#include <sys/socket.h>
 #include <fcntl.h>
 #include <poll.h>
 #include <sys/stat.h>
@@ -502,6 +505,9 @@ static void file_cases(vt::Rng& r, const string& dir, bool quick) {
   for (int t = 0; t < (quick ? 3 : 20); t++) {
     string root = dir + "/tree" + to_string(t);
     mkdir(root.c_str(), 0755);
+    string outside = dir + "/outside" + to_string(t);
+    mkdir(outside.c_str(), 0755);
+    save_file(outside + "/sentinel", "keep me");
     vector<string> names;
     int n = (int)r.below(9);
     // small scope: the first tree holds EVERY name of 1..3 characters over {'.', 'a', '-'} other than "." and ".." themselves
@@ -529,7 +535,38 @@ static void file_cases(vt::Rng& r, const string& dir, bool quick) {
       if (find(names.begin(), names.end(), nm) != names.end()) continue;
       names.push_back(nm);
       string p = root + "/" + nm;
-      if (r.chance(30)) {
+      if (r.chance(t == 0 ? 15 : 20) && nm.size() < 60) {
+        // entries that are neither regular files nor directories: a FIFO, a bound unix-domain socket (their mode bits
+        // share bits with S_IFDIR), a dangling symlink and a symlink to a directory (which must be removed, not followed)
+        switch (r.below(4)) {
+          case 0: mkfifo(p.c_str(), 0644); break;
+          case 1: {
+            int cwd = open(".", O_RDONLY);
+            if (cwd >= 0 && chdir(root.c_str()) == 0) {
+              int sk = socket(AF_UNIX, SOCK_STREAM, 0);
+              struct sockaddr_un sa;
+              memset(&sa, 0, sizeof sa);
+              sa.sun_family = AF_UNIX;
+              memcpy(sa.sun_path, nm.data(), nm.size());
+              if (sk < 0 || bind(sk, (struct sockaddr*)&sa, (socklen_t)(offsetof(struct sockaddr_un, sun_path) + nm.size() + 1)) != 0)
+                save_file(nm, "fallback");
+              if (sk >= 0) __real_close(sk);
+              if (fchdir(cwd) != 0) abort();
+            } else
+              save_file(p, "fallback");
+            if (cwd >= 0) __real_close(cwd);
+            break;
+          }
+          case 2:
+            if (symlink("does-not-exist", p.c_str()) != 0) save_file(p, "fallback");
+            break;
+          default:
+            // a symlink to a directory that lies OUTSIDE the tree (a sibling holding a sentinel file): the link is an
+            // entry like any other - it is removed, never followed
+            if (symlink(("../outside" + to_string(t)).c_str(), p.c_str()) != 0) save_file(p, "fallback");
+            break;
+        }
+      } else if (r.chance(30)) {
         mkdir(p.c_str(), 0755);
         string deep = p;
         for (int d = 0; d < (int)r.below(5); d++) {
@@ -562,7 +599,10 @@ static void file_cases(vt::Rng& r, const string& dir, bool quick) {
     struct stat st;
     vt::J k;
     k.str("e", "rmtree").str("out", out2).num("exists", stat(root.c_str(), &st) == 0);
+    k.num("outside", stat((outside + "/sentinel").c_str(), &st) == 0);
     tr.emit(k);
+    ::unlink((outside + "/sentinel").c_str());
+    ::rmdir(outside.c_str());
     tr.nontrivial("dir" + to_string(names.size()));
   }
   // basename / dirname on every path up to length 6 over {a, /, .}
